@@ -11,8 +11,8 @@ Definition src_of (O : oracle) (op : string) (s : state) (vs : val) (j : Z) : Z 
 Definition fholds (O : oracle) (s : state) (fc : fact) : Prop :=
   match fc with
   | FCopy op d sr n =>
-      exists vd vs, oval s d = Some vd /\ oval s sr = Some vs /\
-        forall j, 0 <= j < n -> smem s (fst vd) (snd vd + j) = src_of O op s vs j
+      exists vd vs vn, oval s d = Some vd /\ oval s sr = Some vs /\ oval s n = Some (None, vn) /\
+        forall j, 0 <= j < vn -> smem s (fst vd) (snd vd + j) = src_of O op s vs j
   end.
 Definition allholds (O : oracle) (s : state) (F : list fact) : Prop := forall fc, In fc F -> fholds O s fc.
 
@@ -56,18 +56,21 @@ Proof.
   rewrite Q1, Q2. cbn. f_equal. lia.
 Qed.
 
+Lemma size_lit_val s n nz v : size_lit n = Some nz -> oval s n = Some v -> v = (None, nz).
+Proof. destruct n; cbn; try discriminate. intros H1 H2. inversion H1. inversion H2. reflexivity. Qed.
+
 (* ---- frames *)
 Lemma oval_eq s s' o : (forall y, mentions y o = true -> vars s' y = vars s y) -> oval s' o = oval s o.
 Proof. destruct o; cbn; auto. intros H. apply H. apply N.eqb_refl. Qed.
 
 Lemma fholds_transfer O s s' op d sr n :
-  fholds O s (FCopy op d sr n) -> oval s' d = oval s d -> oval s' sr = oval s sr ->
-  (forall vd j, oval s d = Some vd -> 0 <= j < n -> smem s' (fst vd) (snd vd + j) = smem s (fst vd) (snd vd + j)) ->
-  (forall vs j, oval s sr = Some vs -> 0 <= j < n -> src_of O op s' vs j = src_of O op s vs j) ->
+  fholds O s (FCopy op d sr n) -> oval s' d = oval s d -> oval s' sr = oval s sr -> oval s' n = oval s n ->
+  (forall vd vn j, oval s d = Some vd -> oval s n = Some (None, vn) -> 0 <= j < vn -> smem s' (fst vd) (snd vd + j) = smem s (fst vd) (snd vd + j)) ->
+  (forall vs vn j, oval s sr = Some vs -> oval s n = Some (None, vn) -> 0 <= j < vn -> src_of O op s' vs j = src_of O op s vs j) ->
   fholds O s' (FCopy op d sr n).
 Proof.
-  intros [vd [vs [H1 [H2 H3]]]] E1 E2 M S. exists vd, vs. rewrite E1, E2. repeat split; auto.
-  intros j Hj. rewrite (M vd j H1 Hj), (S vs j H2 Hj). auto.
+  intros [vd [vs [vn [H1 [H2 [Hn H3]]]]]] E1 E2 E3 M S. exists vd, vs, vn. rewrite E1, E2, E3. repeat split; auto.
+  intros j Hj. rewrite (M vd vn j H1 Hn Hj), (S vs vn j H2 Hn Hj). auto.
 Qed.
 
 Lemma kill_outs_in F outs fc : In fc (kill_outs F outs) -> In fc F /\ forall x, In x outs -> fact_mentions fc x = false.
@@ -86,7 +89,8 @@ Proof.
   assert (Q : forall o, (forall x, In x outs -> mentions x o = false) -> oval s' o = oval s o).
   { intros o Ho. apply oval_eq. intros y My. apply Ev. intros Iy. rewrite (Ho y Iy) in My. discriminate. }
   apply fholds_transfer with (s := s); auto.
-  - apply Q. intros x Hx. specialize (Hm x Hx). apply orb_false_iff in Hm. tauto.
+  - apply Q. intros x Hx. specialize (Hm x Hx). apply orb_false_iff in Hm. destruct Hm as [Hm _]. apply orb_false_iff in Hm. tauto.
+  - apply Q. intros x Hx. specialize (Hm x Hx). apply orb_false_iff in Hm. destruct Hm as [Hm _]. apply orb_false_iff in Hm. tauto.
   - apply Q. intros x Hx. specialize (Hm x Hx). apply orb_false_iff in Hm. tauto.
   - intros. rewrite Em. reflexivity.
   - intros. unfold src_of, src_byte. rewrite Em, Er. reflexivity.
@@ -105,26 +109,26 @@ Lemma write_case O C s F w vp n g : allholds O s F -> cinv C s ->
 Proof.
   intros HF HI Hw fc Hin. unfold kill_write in Hin. apply filter_In in Hin. destruct Hin as [Hin Hs].
   pose proof (HF fc Hin) as Hh. destruct fc as [op d sr n0]. cbn in Hs. apply andb_prop in Hs. destruct Hs as [S1 S2].
-  destruct w as [lw|]. 2:{ unfold odisjoint in S1. destruct (loc_of C d (Some n0)); discriminate. }
+  destruct w as [lw|]. 2:{ unfold odisjoint in S1. destruct (loc_of C d (size_lit n0)); discriminate. }
   specialize (Hw lw eq_refl).
   apply fholds_transfer with (s := s); auto.
-  - intros vd j Hd Hj. cbn. apply mwrite_other. intros [T R].
-    unfold odisjoint in S1. destruct (loc_of C d (Some n0)) as [ld|] eqn:Ld; try discriminate.
-    assert (Cd : covers ld vd n0). { eapply loc_of_covers; eauto. intros m0 Q. inversion Q. reflexivity. }
-    apply (disjoint_sound ld lw vd n0 vp n S1 Cd Hw j (snd vd + j - snd vp) Hj); [lia|]. split; auto. lia.
-  - intros vs j Hsr Hj. unfold src_of. destruct (String.eqb op "mcopy").
+  - intros vd vn j Hd Hn Hj. cbn. apply mwrite_other. intros [T R].
+    unfold odisjoint in S1. destruct (loc_of C d (size_lit n0)) as [ld|] eqn:Ld; try discriminate.
+    assert (Cd : covers ld vd vn).
+    { eapply loc_of_covers; eauto. intros m0 Q. pose proof (size_lit_val _ _ _ _ Q Hn) as Q2. inversion Q2. reflexivity. }
+    apply (disjoint_sound ld lw vd vn vp n S1 Cd Hw j (snd vd + j - snd vp) Hj); [lia|]. split; auto. lia.
+  - intros vs vn j Hsr Hn Hj. unfold src_of. destruct (String.eqb op "mcopy").
     + cbn. apply mwrite_other. intros [T R].
-      unfold odisjoint in S2. destruct (loc_of C sr (Some n0)) as [ls|] eqn:Ls; try discriminate.
-      assert (Cs : covers ls vs n0). { eapply loc_of_covers; eauto. intros m0 Q. inversion Q. reflexivity. }
-      apply (disjoint_sound ls lw vs n0 vp n S2 Cs Hw j (snd vs + j - snd vp) Hj); [lia|]. split; auto. lia.
+      unfold odisjoint in S2. destruct (loc_of C sr (size_lit n0)) as [ls|] eqn:Ls; try discriminate.
+      assert (Cs : covers ls vs vn).
+      { eapply loc_of_covers; eauto. intros m0 Q. pose proof (size_lit_val _ _ _ _ Q Hn) as Q2. inversion Q2. reflexivity. }
+      apply (disjoint_sound ls lw vs vn vp n S2 Cs Hw j (snd vs + j - snd vp) Hj); [lia|]. split; auto. lia.
     + reflexivity.
 Qed.
 
 Lemma kill_write_sub C F w fc : In fc (kill_write C F w) -> In fc F.
 Proof. unfold kill_write. rewrite filter_In. tauto. Qed.
 
-Lemma size_lit_val s n nz v : size_lit n = Some nz -> oval s n = Some v -> v = (None, nz).
-Proof. destruct n; cbn; try discriminate. intros H1 H2. inversion H1. inversion H2. reflexivity. Qed.
 
 Lemma ovals_length s : forall l a, ovals s l = Some a -> List.length a = List.length l.
 Proof. induction l; cbn; intros a0 H. inversion H. reflexivity.
@@ -141,7 +145,7 @@ Qed.
 Theorem step_facts_sound O C i s s' F :
   cinv C s -> allholds O s F -> exec O i s = Next s' -> allholds O s' (step_facts C F i).
 Proof.
-  intros HI HF. destruct i as [op args outs wm wrd id]. unfold exec, step_facts. cbn [i_op i_args i_outs i_wm i_wrd i_id].
+  intros HI HF. destruct i as [op args outs wm wrd id ann]. unfold exec, step_facts. cbn [i_op i_args i_outs i_wm i_wrd i_id i_ann].
   intros H.
   assert (V1 : forall x v, outs = [x] -> Next (with_vars s (upd (vars s) x v)) = Next s' -> allholds O s' (kill_outs F outs)).
   { intros x v -> Q. inversion Q. subst s'. apply vars_case with (s := s); auto. intros y Ny. cbn. apply upd_other. intros ->. apply Ny. left. reflexivity. }
@@ -168,35 +172,40 @@ Proof.
     destruct args as [|on [|os [|od [|? ?]]]]; try (apply ovals_length in Oa; cbn in Oa; lia).
     destruct (ovals3 _ _ _ _ _ Oa) as [vn [vs [vd [Ea [On [Os Od]]]]]]. inversion Ea. subst vn vs vd. clear Ea.
     set (w := loc_of C od (size_lit on)).
+    assert (Hsz : forall m0, size_lit on = Some m0 -> n = m0).
+    { intros m0 Q. pose proof (size_lit_val _ _ _ _ Q On) as Q2. inversion Q2. reflexivity. }
     assert (Hw : forall lw, w = Some lw -> covers lw dp n).
-    { intros lw Hl. eapply loc_of_covers; eauto. intros m0 Q. pose proof (size_lit_val _ _ _ _ Q On) as Q2. inversion Q2. reflexivity. }
+    { intros lw Hl. eapply loc_of_covers; eauto. }
     pose proof (write_case O C s F w dp n (fun j => smem s (fst sp) (snd sp + j)) HF HI Hw) as HK.
     set (s' := with_mem s (mwrite (smem s) (fst dp) (snd dp) n (fun j => smem s (fst sp) (snd sp + j)))) in *.
-    destruct (size_lit on) as [nz|] eqn:Sz; auto.
-    destruct (exact (cert_op C od)); auto.
-    pose proof (size_lit_val _ _ _ _ Sz On) as Q2. inversion Q2. subst n. clear Q2.
-    assert (Keep : forall o vo lw, w = Some lw -> oval s o = Some vo -> odisjoint w (loc_of C o (Some nz)) = true ->
-                   forall j, 0 <= j < nz -> smem s' (fst vo) (snd vo + j) = smem s (fst vo) (snd vo + j)).
+    destruct (is_plain_size C on); auto.
+    assert (Keep : forall o vo lw, w = Some lw -> oval s o = Some vo -> odisjoint w (loc_of C o (size_lit on)) = true ->
+                   forall j, 0 <= j < n -> smem s' (fst vo) (snd vo + j) = smem s (fst vo) (snd vo + j)).
     { intros o vo lw Hl Ho Dj j Hj. cbn. apply mwrite_other. intros [T R]. rewrite Hl in Dj. cbn in Dj.
-      destruct (loc_of C o (Some nz)) as [lo|] eqn:Lo; try discriminate.
-      assert (Co : covers lo vo nz). { eapply loc_of_covers; eauto. intros m0 Q. inversion Q. reflexivity. }
-      apply (disjoint_sound lw lo dp nz vo nz Dj (Hw lw Hl) Co (snd vo + j - snd dp) j); [lia|auto|]. split; auto. lia. }
-    assert (Wr : forall j, 0 <= j < nz -> smem s' (fst dp) (snd dp + j) = smem s (fst sp) (snd sp + j)).
-    { intros j Hj. exact (mwrite_in (smem s) (fst dp) (snd dp) nz (fun j => smem s (fst sp) (snd sp + j)) j Hj). }
+      destruct (loc_of C o (size_lit on)) as [lo|] eqn:Lo; try discriminate.
+      assert (Co : covers lo vo n). { eapply loc_of_covers; eauto. }
+      apply (disjoint_sound lw lo dp n vo n Dj (Hw lw Hl) Co (snd vo + j - snd dp) j); [lia|auto|]. split; auto. lia. }
+    assert (Wr : forall j, 0 <= j < n -> smem s' (fst dp) (snd dp + j) = smem s (fst sp) (snd sp + j)).
+    { intros j Hj. exact (mwrite_in (smem s) (fst dp) (snd dp) n (fun j => smem s (fst sp) (snd sp + j)) j Hj). }
     intros fc Hin. apply in_app_or in Hin. destruct Hin as [Hin|Hin].
     { (* the copy itself *)
-      destruct (odisjoint w (loc_of C os (Some nz))) eqn:Dj; [|destruct Hin]. destruct Hin as [<-|[]].
-      exists dp, sp. repeat split; auto. intros j Hj. unfold src_of. cbn [String.eqb Ascii.eqb Bool.eqb]. ceqb.
+      destruct (odisjoint w (loc_of C os (size_lit on))) eqn:Dj; [|destruct Hin]. destruct Hin as [<-|[]].
+      exists dp, sp, n. repeat split; auto. intros j Hj. unfold src_of. ceqb.
       rewrite (Wr j Hj). symmetry. destruct w as [lw|] eqn:Ew; [|discriminate]. eapply Keep; eauto. }
     apply in_app_or in Hin. destruct Hin as [Hin|Hin]; [|apply HK; exact Hin].
     (* derived: a copy of a valid copy *)
     apply in_flat_map in Hin. destruct Hin as [[opF dF sF nF] [HinF Hd]].
-    destruct ((nF =? nz) && same_val C os dF && (if String.eqb opF "mcopy" then odisjoint w (loc_of C sF (Some nz)) else true)) eqn:Q; [|destruct Hd].
+    destruct (operand_eqb nF on && same_val C os dF && (if String.eqb opF "mcopy" then odisjoint w (loc_of C sF (size_lit on)) else true)) eqn:Q; [|destruct Hd].
     destruct Hd as [<-|[]]. apply andb_prop in Q. destruct Q as [Q Q3]. apply andb_prop in Q. destruct Q as [Q1 Q2].
-    apply Z.eqb_eq in Q1. subst nF.
-    pose proof (HF _ (kill_write_sub _ _ _ _ HinF)) as [vdF [vsF [HdF [HsF Hb]]]].
+    pose proof (HF _ (kill_write_sub _ _ _ _ HinF)) as [vdF [vsF [vnF [HdF [HsF [HnF Hb]]]]]].
+    assert (EnF : oval s nF = oval s on).
+    { destruct nF, on; cbn in Q1; try discriminate; cbn.
+      - apply Z.eqb_eq in Q1. rewrite Q1. reflexivity.
+      - apply N.eqb_eq in Q1. subst. reflexivity.
+      - apply N.eqb_eq in Q1. subst. reflexivity. }
+    rewrite EnF, On in HnF. inversion HnF. subst vnF.
     assert (sp = vdF) by (eapply same_val_sound; eauto). subst vdF.
-    exists dp, vsF. repeat split; auto. intros j Hj. rewrite (Wr j Hj), (Hb j Hj). unfold src_of.
+    exists dp, vsF, n. repeat split; auto. intros j Hj. rewrite (Wr j Hj), (Hb j Hj). unfold src_of.
     destruct (String.eqb opF "mcopy"); [|reflexivity].
     symmetry. destruct w as [lw|] eqn:Ew; [|discriminate]. eapply Keep; eauto. }
   destruct (is_nonmem_copy op) eqn:Nm.
@@ -208,11 +217,9 @@ Proof.
     assert (Hw : forall lw, w = Some lw -> covers lw dp n).
     { intros lw Hl. eapply loc_of_covers; eauto. intros m0 Q. pose proof (size_lit_val _ _ _ _ Q On) as Q2. inversion Q2. reflexivity. }
     pose proof (write_case O C s F w dp n (src_byte O op s sp) HF HI Hw) as HK.
-    destruct (size_lit on) as [nz|] eqn:Sz; auto.
-    destruct (exact (cert_op C od)); auto.
-    pose proof (size_lit_val _ _ _ _ Sz On) as Q2. inversion Q2. subst n. clear Q2.
+    destruct (is_plain_size C on); auto.
     intros fc [<-|Hin]; [|apply HK; exact Hin].
-    exists dp, sp. repeat split; auto. intros j Hj. unfold src_of.
+    exists dp, sp, n. repeat split; auto. intros j Hj. unfold src_of.
     match goal with Hm : String.eqb op "mcopy" = false |- _ => rewrite Hm end.
     cbn. rewrite mwrite_in by exact Hj. reflexivity. }
   (* oracle instructions *)
@@ -229,7 +236,8 @@ Proof.
   assert (Q : forall oo, (forall x, In x outs -> mentions x oo = false) -> oval (mkS vs' (smem s) (if wrd then r else srd s) w (spred s)) oo = oval s oo).
   { intros oo Ho. apply oval_eq. intros y My. cbn. apply Fr. intros Iy. rewrite (Ho y Iy) in My. discriminate. }
   apply fholds_transfer with (s := s); auto.
-  - apply Q. intros x Hx. specialize (Hm x Hx). apply orb_false_iff in Hm. tauto.
+  - apply Q. intros x Hx. specialize (Hm x Hx). apply orb_false_iff in Hm. destruct Hm as [Hm _]. apply orb_false_iff in Hm. tauto.
+  - apply Q. intros x Hx. specialize (Hm x Hx). apply orb_false_iff in Hm. destruct Hm as [Hm _]. apply orb_false_iff in Hm. tauto.
   - apply Q. intros x Hx. specialize (Hm x Hx). apply orb_false_iff in Hm. tauto.
   - intros. unfold src_of, src_byte. cbn. destruct (String.eqb opF "mcopy"); auto.
     destruct (String.eqb opF "returndatacopy") eqn:Rd; auto. destruct wrd; auto.
